@@ -674,6 +674,69 @@ def g9_named_list_raw_mutation(prog: Program, run: Run, rule: str) -> int:
     return n
 
 
+# --------------------------------------------------------------------- G12
+def g12_keys_are_not_names(prog: Program, run: Run, rule: str, patterns: Sequence[str]) -> int:
+    """NamedItemList.keys() are ATTRIBUTE names: a short name that is no python identifier (or a
+    keyword, or a duplicate) is stored under a sanitised key (`_1st`, `class_`, `x_2`).  A short
+    name must therefore not be tested for membership in keys()."""
+    from ..types import annotation_of
+    n = 0
+
+    def named(env, e: ast.AST) -> bool:
+        try:
+            a = annotation_of(env, e)
+        except Exception:  # noqa: BLE001
+            return False
+        if a is None:
+            return False
+        while isinstance(a, ast.Subscript) and ast.unparse(a.value).split(".")[-1] == "Optional":
+            a = a.slice
+        head = a.value if isinstance(a, ast.Subscript) else a
+        if isinstance(head, ast.Constant) and isinstance(head.value, str):
+            return head.value.lstrip("'\"").startswith(("NamedItemList", "ItemAttributeList"))
+        return ast.unparse(head).split(".")[-1] in ("NamedItemList", "ItemAttributeList")
+    for f in funcs_in(prog, patterns):
+        env = None
+        key_vars: Dict[str, ast.AST] = {}
+        key_calls: List[ast.Call] = []
+        for x in walk_no_nested(f.node):
+            if isinstance(x, ast.Call) and isinstance(x.func, ast.Attribute) and \
+                    x.func.attr == "keys" and not x.args:
+                env = env or TypeEnv(prog, f)
+                if named(env, x.func.value):
+                    key_calls.append(x)
+        if not key_calls:
+            continue
+        for x in walk_no_nested(f.node):
+            if isinstance(x, (ast.Assign, ast.AnnAssign)) and getattr(x, "value", None) is not None:
+                t = x.targets[0] if isinstance(x, ast.Assign) else x.target
+                v = x.value
+                while isinstance(v, ast.Call) and call_name(v) in ("list", "set", "tuple",
+                                                                   "sorted", "frozenset") and v.args:
+                    v = v.args[0]
+                if isinstance(t, ast.Name) and any(v is c for c in key_calls):
+                    key_vars[t.id] = x
+        for x in walk_no_nested(f.node):
+            if not (isinstance(x, ast.Compare) and len(x.ops) == 1 and isinstance(
+                    x.ops[0], (ast.In, ast.NotIn))):
+                continue
+            c = x.comparators[0]
+            is_keys = any(c is k for k in key_calls) or (isinstance(c, ast.Name) and
+                                                         c.id in key_vars)
+            if not is_keys:
+                continue
+            n += 1
+            if any(isinstance(y, ast.Attribute) and y.attr == "short_name"
+                   for y in ast.walk(x.left)):
+                run.violation(rule, f"{f.module.rel}:{f.qual}", "short-name-in-keys",
+                              f"`{ast.unparse(x)}` looks a SHORT-NAME up among the keys() of a "
+                              "NamedItemList, which are sanitised attribute names: for short "
+                              "names that are no identifiers (leading digit, keyword, "
+                              "duplicate) the test gives the wrong answer",
+                              f"{f.module.rel}:{x.lineno}", ast.unparse(x))
+    return n
+
+
 # --------------------------------------------------------------------- G10
 def g10_children_only(prog: Program, run: Run, rule: str, patterns: Sequence[str]) -> int:
     """A parser reads the children of its own element (find / iterfind with a path). Walking ALL
